@@ -16,8 +16,17 @@ int main(int argc, char **argv)
         for (long i = 0; i < len; i++) { long b; if (fscanf(f, "%ld", &b) != 1) return 2; buf[i] = (unsigned char)b; }
         /* DFKconvert ignores DFKsetNT's result; decide support by DFKsetNT first, as its callers do */
         int32 rc;
+        /* Is the type supported at all?  (DFKconvert itself ignores DFKsetNT's result.) */
         if (DFKsetNT((int32)nt) == FAIL || nt == DFNT_CUSTOM) rc = FAIL;
-        else rc = DFKconvert(buf + s, buf + d, (int32)nt, (int32)n, (int16)(acc == 1 ? DFACC_READ : DFACC_WRITE), (int32)ss, (int32)ds);
+        else {
+            /* the conversion routines are global state that other interfaces set directly through DFKsetNT:
+               select the routines of ANOTHER type first (the "decoy"), so that DFKconvert has to select its own */
+            static const int32 decoys[] = {DFNT_FLOAT64, DFNT_INT16, DFNT_UINT8, DFNT_INT32, DFNT_LFLOAT64, DFNT_NINT16, DFNT_LUINT32};
+            static unsigned long ncase;
+            int32 decoy = decoys[(ncase++) % (sizeof decoys / sizeof decoys[0])];
+            if (decoy != (int32)nt) DFKsetNT(decoy);
+            rc = DFKconvert(buf + s, buf + d, (int32)nt, (int32)n, (int16)(acc == 1 ? DFACC_READ : DFACC_WRITE), (int32)ss, (int32)ds);
+        }
         if (rc == FAIL) printf("R fail\n");
         else { printf("R ok"); for (long i = 0; i < len; i++) printf(" %d", buf[i]); printf("\n"); }
         free(buf);
